@@ -199,11 +199,13 @@ type Parser struct {
 	currFunc  string
 	usedFuncs map[string][]string // Stores which function (key) calls which functions (values).
 	importing []string            // Stores the files that are currently being imported (to detect import cycles).
+	imported  map[string]bool     // Stores the files that have already been imported (shared by all parsers of a program).
 }
 
 func New() Parser {
 	return Parser{
 		usedFuncs: map[string][]string{},
+		imported:  map[string]bool{},
 	}
 }
 
@@ -711,11 +713,22 @@ func (p *Parser) evaluateImports(ctx context) ([]Statement, error) {
 			}
 			importParser := New()
 			importParser.importing = append(slices.Clone(p.importing), p.path)
+			importParser.imported = p.imported
 			importedProg, err := importParser.parse(absPath, true)
 
 			if err != nil {
 				return nil, err
 			}
+			importedStatements := importedProg.Body()
+
+			// The top-level code of a file that is reached along several import paths must only run once.
+			if p.imported[absPath] {
+				importedStatements = slices.DeleteFunc(slices.Clone(importedStatements), func(stmt Statement) bool {
+					statementType := stmt.StatementType()
+					return statementType != STATEMENT_TYPE_VAR_DEFINITION && statementType != STATEMENT_TYPE_FUNCTION_DEFINITION
+				})
+			}
+			p.imported[absPath] = true
 
 			if _, exists := ctx.findImport(alias); exists {
 				return nil, fmt.Errorf(`import alias "%s" already exists`, alias)
@@ -725,7 +738,7 @@ func (p *Parser) evaluateImports(ctx context) ([]Statement, error) {
 			if err != nil {
 				return nil, err
 			}
-			statementsTemp = append(statementsTemp, importedProg.Body()...)
+			statementsTemp = append(statementsTemp, importedStatements...)
 
 			// Import-parser funcs with current parser funcs.
 			for funcName, usedFuncs := range importParser.usedFuncs {
